@@ -1217,11 +1217,23 @@ func (r *ddRun) runSchedule() error {
 	return nil
 }
 
+type ddInputs struct {
+	Runs []ddInput `json:"runs"`
+}
+
 func TestDedupSchedules(t *testing.T) {
-	var in ddInput
-	vh.Input(t, &in)
+	var all ddInputs
+	vh.Input(t, &all)
 	res := vh.NewResult()
 	defer res.Write(t)
+	for ri := range all.Runs {
+		if !dedupSchedulesRun(t, res, &all.Runs[ri]) {
+			return
+		}
+	}
+}
+
+func dedupSchedulesRun(t *testing.T, res *vh.Result, in *ddInput) bool {
 	short := time.Duration(in.ShortMs) * time.Millisecond
 	if short <= 0 {
 		short = 25 * time.Millisecond
@@ -1236,12 +1248,14 @@ func TestDedupSchedules(t *testing.T) {
 		defer out.Close()
 	}
 	for si := range in.Schedules {
-		r := &ddRun{in: &in, res: res, sched: &in.Schedules[si], shortDur: short}
+		r := &ddRun{in: in, res: res, sched: &in.Schedules[si], shortDur: short}
 		if err := r.runSchedule(); err != nil {
-			res.Skip("schedule %s: %v (after %v)", in.Schedules[si].ID, err, r.hist)
-			break
+			res.Skip("[%s] schedule %s: %v (after %v)", in.Config, in.Schedules[si].ID, err, r.hist)
+			return false
 		}
 		res.Case("dd:" + in.Config + ":" + strings.Join(r.hist, ";"))
+		res.Count("cases_"+in.Config, 1)
+		res.Count("steps_"+in.Config, len(r.hist))
 		if si < 2 {
 			res.Sample(map[string]any{"driver": "dedup", "config": in.Config, "schedule": r.hist})
 		}
@@ -1250,7 +1264,9 @@ func TestDedupSchedules(t *testing.T) {
 				b, _ := json.Marshal(e)
 				out.Write(append(b, '\n'))
 			}
-			res.Count("traces", 1)
+			res.Count("traces_"+in.Config, 1)
+			res.Count("events_"+in.Config, len(r.lines))
 		}
 	}
+	return true
 }
